@@ -72,5 +72,9 @@ pub enum SwarmControlMessage {
     ConnectionClosed {
         ip_version: IpVersion,
         announced_info_hashes: Vec<(InfoHash, PeerId)>,
+        /// Socket worker that handled the closed connection
+        out_message_consumer_id: ConsumerId,
+        /// Id of the closed connection (only unique within its socket worker)
+        connection_id: ConnectionId,
     },
 }
